@@ -186,7 +186,7 @@ class Check:
     def __init__(self, prop: str, tier: str) -> None:
         self.prop = prop
         self.tier = tier
-        self.t0 = time.time()
+        self.t0 = time.perf_counter()
         self.seed = seed()
         self.violations: list[tuple[str, dict, bool]] = []
         self.known_hits: list[str] = []
@@ -274,7 +274,7 @@ class Check:
         if by is not None and not getattr(self, "_bystander_done", False):
             self._bystander_done = True
             by.verify(self)
-        wall = time.time() - self.t0
+        wall = time.perf_counter() - self.t0
         for msg in self.known_hits:
             print(msg)
         rc = 0
